@@ -430,13 +430,16 @@ func runScript(s script) outcome {
 	}
 	deadline := time.Now().Add(patience())
 	for {
+		// order matters: a connection exists before its dial result is logged, so once every dial has
+		// logged its result the count of open connections taken afterwards can only go down
+		finished := r.allDialsFinished()
 		open := 0
 		for _, c := range r.snapshotConns() {
 			if c != nil && !c.isClosed() {
 				open++
 			}
 		}
-		if (open <= want && r.allDialsFinished()) || time.Now().After(deadline) {
+		if (finished && open <= want) || time.Now().After(deadline) {
 			break
 		}
 		time.Sleep(50 * time.Microsecond)
